@@ -10,7 +10,9 @@ from .gen import (Gen, PREFIXES, URIS, LOCALS, KINDS, ELEMENT_KINDS, RELATION_KI
 from .world import World
 
 SAFE_NS = [("ex", "http://example.org/"), ("foo", "http://foo.org/ns#"), ("ex2", "http://example.org/2/"),
-           ("z", "urn:z:"), ("w3", "http://www.w3.org/other/")]
+           ("z", "urn:z:"), ("w3", "http://www.w3.org/other/"),
+           # a hash namespace whose stem is itself a name of another namespace (ex:vocab is http://example.org/vocab)
+           ("voc", "http://example.org/vocab#")]
 CLASH_NS = [("ex", "http://other/"), ("ex_1", "http://a/b/"), ("dn", "http://dn/"), ("foo", "http://example.org/"),
             ("prov", "http://notprov/"), ("xsd", "http://notxsd/"),
             # a third and a fourth namespace under one prefix: the second and third renaming (ex_1, ex_2, ...) in one scope
